@@ -52,6 +52,8 @@ type c20Engine struct {
 	porc     struct{ ok, illegal, unknown int64 }
 	prepared bool
 	lin      *linChild
+	// distinct decision sequences (task, site, next) seen by this worker
+	schedSigs map[uint64]struct{}
 
 	// what the watchdog needs to know
 	curTrace *kit.Trace
@@ -59,7 +61,9 @@ type c20Engine struct {
 }
 
 // C20 returns the engine.
-func C20(known map[string]bool) kit.Engine { return &c20Engine{known: known} }
+func C20(known map[string]bool) kit.Engine {
+	return &c20Engine{known: known, schedSigs: map[uint64]struct{}{}}
+}
 
 func (e *c20Engine) ID() string { return "C20" }
 
@@ -532,6 +536,7 @@ func b2i(b bool) int64 {
 // scanResult keeps what a block scan reported (read after the join).
 type scanResult struct {
 	indices []int
+	call    int64
 }
 
 func (w *c20World) doOp(o kit.Op, scans *[]scanResult) int64 {
@@ -584,7 +589,7 @@ func (w *c20World) doOp(o kit.Op, scans *[]scanResult) int64 {
 			}
 		}
 		sort.Ints(idx)
-		*scans = append(*scans, scanResult{idx})
+		*scans = append(*scans, scanResult{indices: idx})
 		return int64(len(idx))
 	case "mblock":
 		if w.block == nil {
@@ -595,7 +600,7 @@ func (w *c20World) doOp(o kit.Op, scans *[]scanResult) int64 {
 		for _, i := range ids {
 			idx = append(idx, int(i))
 		}
-		*scans = append(*scans, scanResult{idx})
+		*scans = append(*scans, scanResult{indices: idx})
 		return int64(len(idx))
 	}
 	return 0
@@ -764,6 +769,9 @@ func (e *c20Engine) execute(t *kit.Trace, srng *kit.Rng, st *kit.Stats, record b
 					v = w.doOp(o, &scans[c])
 				}
 				r.ret = s.Stamp()
+				if (o.K == "scan" || o.K == "mblock") && len(scans[c]) > 0 {
+					scans[c][len(scans[c])-1].call = r.call
+				}
 				r.out = v
 				r.done = true
 				s.Yield(siteOpEnd, nil)
@@ -802,6 +810,13 @@ func (e *c20Engine) execute(t *kit.Trace, srng *kit.Rng, st *kit.Stats, record b
 	st.Extra["preemptions"] += int64(s.Preempts)
 	if s.BlockedObs > 0 {
 		st.Probe("run-with-task-blocked-on-real-mutex")
+		st.Fault("task parked inside the critical section while another waited for the real mutex")
+	}
+	if s.Preempts > 0 {
+		st.Fault("preemption at a simulation point inside an operation")
+	}
+	if len(e.schedSigs) < 1<<20 {
+		e.schedSigs[uint64(s.Sig)] = struct{}{}
 	}
 	st.Extra["decisions_with_a_task_blocked_on_mutex"] += int64(s.BlockedObs)
 	st.Extra[[]string{"runs_linearizability", "runs_block_scan_composite", "runs_gcs"}[w.kind]]++
@@ -849,6 +864,7 @@ func (e *c20Engine) execute(t *kit.Trace, srng *kit.Rng, st *kit.Stats, record b
 				}
 				if (a.k == "reload" || a.k == "unload") && b.call < a.call && a.rt < b.rt || (b.k == "reload" || b.k == "unload") && a.call < b.call && b.rt < a.rt {
 					st.Probe("reload-or-unload-inside-another-operation")
+					st.Fault("reload/unload landed inside another task's operation")
 				}
 			}
 		}
@@ -926,7 +942,7 @@ func (e *c20Engine) execute(t *kit.Trace, srng *kit.Rng, st *kit.Stats, record b
 			return fail(v)
 		}
 	case kindComposite:
-		if v := e.checkComposite(t, w, scans, st); v != nil {
+		if v := e.checkComposite(t, w, scans, recs, st); v != nil {
 			return fail(v)
 		}
 	}
@@ -1241,7 +1257,7 @@ func (e *c20Engine) checkMonotone(t *kit.Trace, w *c20World, recs [][]opRec, sna
 // checkComposite: block scans are not documented atomic; what must hold is
 // (besides race freedom and progress) that nothing is reported that the
 // final filter state does not match, when the loaded object never changed.
-func (e *c20Engine) checkComposite(t *kit.Trace, w *c20World, scans [][]scanResult, st *kit.Stats) *kit.Violation {
+func (e *c20Engine) checkComposite(t *kit.Trace, w *c20World, scans [][]scanResult, recs [][]opRec, st *kit.Stats) *kit.Violation {
 	for _, c := range t.Clients {
 		for _, o := range c {
 			if o.K == "reload" || o.K == "unload" {
@@ -1257,6 +1273,41 @@ func (e *c20Engine) checkComposite(t *kit.Trace, w *c20World, scans [][]scanResu
 	for c := range scans {
 		for _, sc := range scans[c] {
 			st.Probe("block-scan-bracket-checked")
+			// lower bound: everything relevant to the items whose insertion had
+			// returned before the scan was invoked must be reported, whatever
+			// the other tasks did meanwhile (bits only grow)
+			items := map[string]bool{}
+			for _, d := range w.pre {
+				items[string(d)] = true
+			}
+			for c2 := range recs {
+				for i, r := range recs[c2] {
+					if !r.done || r.ret >= sc.call {
+						continue
+					}
+					switch o := t.Clients[c2][i]; o.K {
+					case "add", "addhash":
+						items[string(o.Data())] = true
+					case "addop":
+						var h [32]byte
+						copy(h[:], o.Data())
+						items[string(model.OutPointBytes(h, uint32(o.Arg(0))))] = true
+					}
+				}
+			}
+			L, _ := exactClosure(items, w.block.Transactions, sh.fl)
+			rep := map[int]bool{}
+			for _, i := range sc.indices {
+				rep[i] = true
+			}
+			for i := range w.block.Transactions {
+				if L[i] && !rep[i] {
+					return kit.V("composite:relevant-transaction-missed", "task %d: a block scan concurrent with other operations did not report transaction %d, which is relevant to items inserted before the scan started", c, i)
+				}
+			}
+			if len(L) > 0 {
+				st.Probe("concurrent-block-scan-with-relevant-transactions")
+			}
 			for _, i := range sc.indices {
 				if i < 0 || i >= len(w.block.Transactions) {
 					return kit.V("composite:index-out-of-range", "scan reported index %d of a %d-transaction block", i, len(w.block.Transactions))
@@ -1398,7 +1449,7 @@ func (e *c20Engine) Simplify(t *kit.Trace) []*kit.Trace {
 
 // Extra reports engine-level counters.
 func (e *c20Engine) Extra() map[string]interface{} {
-	return map[string]interface{}{"porcupine_ok": float64(e.porc.ok), "porcupine_illegal": float64(e.porc.illegal), "porcupine_unknown": float64(e.porc.unknown)}
+	return map[string]interface{}{"distinct_interleavings_sum_over_workers": float64(len(e.schedSigs))}
 }
 
 var _ = bytes.Equal
